@@ -770,7 +770,11 @@ func (fr *Frame) opaqueCall(st *State, site ssa.Instruction, fn *ssa.Function, a
 		if k >= len(args) {
 			unsup("option opaque-writes %s:%d: no such argument", fn.Name(), k)
 		}
-		switch a := args[k].(type) {
+		ak := args[k]
+		if iv, isI := ak.(*IfaceV); isI && iv.V != nil {
+			ak = iv.V // a pointer handed over as an interface value (binary.Read(r, order, &x))
+		}
+		switch a := ak.(type) {
 		case *SliceV:
 			if a.Obj != nil {
 				v.noteWrite(fr, st, a.Obj, a.Path)
